@@ -19,7 +19,7 @@ from hsim.worlds.udp import UdpWorld
 PROPERTY = "C06"
 BYTE_EXACT = False
 CHUNK = {"quick": 24, "thorough": 60}
-PROBES = ["region_handle_announced_again_on_another_address", "packet_id_counter_leapt", "reconnected_session_forwarded", "corrupt_forwarded", "corrupt_discarded", "proxy_originated_in_window", "garbage_between_valid_same_flow", "two_sessions_same_sim", "same_ip", "reopen_after_close",
+PROBES = ["chat_text_not_utf8", "region_handle_announced_again_on_another_address", "packet_id_counter_leapt", "reconnected_session_forwarded", "corrupt_forwarded", "corrupt_discarded", "proxy_originated_in_window", "garbage_between_valid_same_flow", "two_sessions_same_sim", "same_ip", "reopen_after_close",
           "spontaneous_emission", "packetack_swallowed", "unjudged_after_close", "late_region_registered",
           "disconnect_midstream", "eager_parsing"]
 COMPONENTS = {
@@ -164,6 +164,12 @@ def gen_plan(rng: random.Random, tier: str) -> dict:
                               "fate": rand_fate(rng, cfg["p_delay"], cfg["p_dup"])})
                 continue
             st = _valid_step(rng, v, r, rng.random() < 0.5, t, cfg)
+            if st["op"] == "ssend" and rng.random() < 0.05:
+                # chat whose text is not UTF-8 (another encoding, cut mid-character, stray terminator)
+                st = {"at": t, "op": "ssend", "v": v, "r": r, "name": "ChatFromSimulator", "mseed": 0,
+                      "chat_type": rng.choice([1, 8]), "reliable": rng.random() < 0.4, "zerocoded": rng.random() < 0.5,
+                      "text_hex": rng.choice(["40e9e8", "ff00", "c3", "40c300", "e9e800", "4000"]),
+                      "fate": rand_fate(rng, cfg["p_delay"], cfg["p_dup"])}
             if jumpy and rng.random() < 0.15:
                 # the sender's packet-ID counter leaps ahead (a counter is only required to increase)
                 st["pid_jump"] = rng.choice([5000, 10001, 25000, 70000])
